@@ -372,6 +372,9 @@ type Prog struct {
 	// Hist (family "hist"): Fn is the function as it is after the history; Hist.Init the function as
 	// first constructed and Hist.Steps the prints and edits performed since.
 	Hist *Hist `json:"hist,omitempty"`
+	// InternStructs (set by BuildHist): every literal struct type term is ONE types.StructType object
+	// wherever it occurs, so that a later "nametype" step names the type of all values built over it
+	InternStructs bool `json:"-"`
 }
 
 // Hist is a construct -> print -> edit -> print history of Build.tla (mode "hist").
@@ -379,6 +382,8 @@ type Hist struct {
 	Base  int     `json:"base"`
 	Init  Func    `json:"init"`
 	Steps []HStep `json:"steps"`
+	// Decls: the module-level declarations as first constructed (type-level histories change them); empty = Prog.Decls
+	Decls []Decl `json:"decls"`
 }
 
 // HStep is one step of a history: op "print" (Name = the observer: String, FuncLLString, AssignIDs) or
@@ -390,6 +395,7 @@ type HStep struct {
 	I    int    `json:"i"`
 	Name string `json:"name"`
 	Inst Case   `json:"inst"`
+	Ty   *Type  `json:"ty,omitempty"` // nametype: the (literal struct) type that gets the name Name
 }
 
 // Pattern is the sequence of step names of the history (for signatures).
